@@ -1538,6 +1538,11 @@ namespace cds { namespace intrusive {
                 pos.pSucc[nLevel] = pCur.ptr();
             }
 
+            // pCur == nullptr at level 0 means that pPred is the last node. If pPred is not the head
+            // (the last item has been removed concurrently) the list is not empty
+            if ( pCur.ptr() == nullptr && pPred != m_Head.head())
+                goto retry;
+
             return ( pos.pCur = pCur.ptr()) != nullptr;
         }
 
@@ -1798,7 +1803,9 @@ namespace cds { namespace intrusive {
                             pCur = pCur->next( nLevel ).load( memory_model::memory_order_acquire );
                         }
                         else if ( nCmp == 0 ) {
-                            // found
+                            // found; if the node is logically deleted the slow path decides
+                            if ( pCur->next( 0 ).load( memory_model::memory_order_acquire ).bits())
+                                return find_fastpath_abort;
                             f( *node_traits::to_value_ptr( pCur.ptr()), val );
                             return find_fastpath_found;
                         }
@@ -1969,11 +1976,13 @@ namespace cds { namespace intrusive {
             {
                 rcu_lock l;
 
-                if ( !find_min_position( pos )) {
-                    m_Stat.onExtractMinFailed();
-                    pDel = nullptr;
-                }
-                else {
+                for (;;) {
+                    if ( !find_min_position( pos )) {
+                        m_Stat.onExtractMinFailed();
+                        pDel = nullptr;
+                        break;
+                    }
+
                     pDel = pos.pCur;
                     unsigned int const nHeight = pDel->height();
 
@@ -1981,11 +1990,11 @@ namespace cds { namespace intrusive {
                         --m_ItemCounter;
                         m_Stat.onRemoveNode( nHeight );
                         m_Stat.onExtractMinSuccess();
+                        break;
                     }
-                    else {
-                        m_Stat.onExtractMinFailed();
-                        pDel = nullptr;
-                    }
+
+                    // the item found has been removed by another thread: the list may be not empty, try again
+                    m_Stat.onExtractMinRetry();
                 }
             }
 
@@ -2002,11 +2011,13 @@ namespace cds { namespace intrusive {
             {
                 rcu_lock l;
 
-                if ( !find_max_position( pos )) {
-                    m_Stat.onExtractMaxFailed();
-                    pDel = nullptr;
-                }
-                else {
+                for (;;) {
+                    if ( !find_max_position( pos )) {
+                        m_Stat.onExtractMaxFailed();
+                        pDel = nullptr;
+                        break;
+                    }
+
                     pDel = pos.pCur;
                     unsigned int const nHeight = pDel->height();
 
@@ -2014,11 +2025,11 @@ namespace cds { namespace intrusive {
                         --m_ItemCounter;
                         m_Stat.onRemoveNode( nHeight );
                         m_Stat.onExtractMaxSuccess();
+                        break;
                     }
-                    else {
-                        m_Stat.onExtractMaxFailed();
-                        pDel = nullptr;
-                    }
+
+                    // the item found has been removed by another thread: the list may be not empty, try again
+                    m_Stat.onExtractMaxRetry();
                 }
             }
 
